@@ -72,7 +72,8 @@ proofs were checked against).
 Plus the shared `expr` op (`{! …}` inside templates), here with `{! …}` bound to the IEEE instance.
 
 Every value is computed with the software binary64 instance `IEEE.arithT` (`Model/C19F64.lean`, the
-instance of the `*_f64` theorems; `none` = went through a libm-backed function → `unmodelled inexact`).
+instance of the `*_f64` theorems; `none` = went through `exp` or a fractional power – all that is left of libm
+since round 4c – → `unmodelled inexact`).
 The native-`Float` instance of `Model/C19Float.lean` is evaluated next to it as a cross-check: when
 both give a definite answer and the answers differ the driver says `model-vs-native …` (a bug in one
 of the two models, shown even if Go happened to agree with the software model).
